@@ -383,6 +383,12 @@ def options(ctx, sg, lim):
     rep.check(same(I.getattr(g, 'step_ratio'), want), 'R-OPTIONS', 'limits.CStepGenerator.step_ratio', lim.relpath,
               {'path': 'spiral', 'ratio': repr(I.getattr(g, 'step_ratio'))}, 'spiral path: exp(1j*dtheta) * ratio',
               'path=spiral', key='path-spiral')
+    # use_exact_steps given to the CStepGenerator is the one in force
+    for flag in (True, False):
+        g = C(step_ratio=r, path='radial', use_exact_steps=flag)
+        rep.check(bool(I.getattr(g, 'use_exact_steps')) is flag, 'R-OPTIONS', 'limits.CStepGenerator.__init__', lim.relpath,
+                  {'use_exact_steps_given': flag, 'stored': repr(I.getattr(g, 'use_exact_steps'))},
+                  'the option given by the caller is the one in force', 'CStepGenerator(use_exact_steps=%s)' % flag, key='c-options')
     # dtheta = 0 is a legal angle: a spiral that does not turn (the real ratio), not "no angle given"
     g = C(step_ratio=r, path='spiral', dtheta=0)
     rep.check(same(I.getattr(g, 'step_ratio'), r), 'R-OPTIONS', 'limits.CStepGenerator.step_ratio', lim.relpath,
